@@ -36,6 +36,22 @@ def install(I):
         s2, fid = st.push_frame(lam.frame, lam.mod)
         s2.pure = True
         guards, vars_ = [], []
+        if len(names) > 1 and not isinstance(dom, (tuple, str)):
+            # one domain yielding tuples, several lambda parameters: (u, v) over G.edges / items()
+            spec = I.to_iterspec(st, dom)
+            if spec.mode != "set":
+                raise Unsupported("multi-variable quantifier over a non-set domain")
+            x = z3.Const(core.fresh_name("q_" + "_".join(names)), keysort(spec.ekind))
+            elem = spec.elem(x, st)
+            items = list(elem) if isinstance(elem, tuple) else I.concrete_items(elem)
+            if len(items) != len(names):
+                raise Unsupported("quantifier: %d names for %d components" % (len(names), len(items)))
+            for nm, it in zip(names, items):
+                s2 = I.bind(s2, nm, it)
+            body, _ = I.eval1(node.body, s2)
+            b = I.truthy(body)
+            g = z3.Select(spec.mem, x)
+            return z3.ForAll([x], z3.Implies(g, b)) if is_all else z3.Exists([x], z3.And(g, b))
         doms = dom if isinstance(dom, tuple) and len(names) > 1 else (dom,) * len(names) if len(names) > 1 and not isinstance(dom, tuple) else (dom,)
         if len(doms) != len(names):
             raise Unsupported("forall: %d domains for %d variables" % (len(doms), len(names)))
@@ -76,7 +92,20 @@ def install(I):
                     raise Unsupported("concrete domain with several variables")
                 return (z3.And(*parts) if parts else TRUE) if is_all else (z3.Or(*parts) if parts else FALSE)
             else:
-                raise Unsupported("quantifier domain %r" % (d,))
+                try:
+                    spec = I.to_iterspec(st, d)
+                except Unsupported:
+                    raise Unsupported("quantifier domain %r" % (d,))
+                if spec.mode == "set":
+                    x = z3.Const(core.fresh_name("q_" + name), keysort(spec.ekind))
+                    val = spec.elem(x, st)
+                    guards.append(z3.Select(spec.mem, x))
+                elif spec.mode == "seq":
+                    x = z3.Int(core.fresh_name("q_" + name))
+                    val = spec.elt(x)
+                    guards.append(z3.And(0 <= x, x < spec.length))
+                else:
+                    raise Unsupported("quantifier domain %r" % (d,))
             vars_.append(x)
             s2 = I.bind(s2, name, val)
         body, _ = I.eval1(node.body, s2)
@@ -573,6 +602,12 @@ def install(I):
                 return I.make_set([SV(k, x) for k, x in zip(v.kind.args, v.tree)])
         if isinstance(v, IterSpec) and v.mode == "set":
             return SV(SET(v.ekind), v.mem)
+        try:
+            spec = I.to_iterspec(st, v)
+        except Unsupported:
+            spec = None
+        if spec is not None and spec.mode == "set" and getattr(spec, "identity", False):
+            return SV(SET(spec.ekind), spec.mem)
         raise Unsupported("set(%r)" % (v,))
     I.to_set_value = to_set_value
 
@@ -1102,11 +1137,11 @@ def install(I):
         present = z3.Select(recv.tree[0], k)
         val = SV(vk, tselect(recv.tree[1], k))
         dflt = args[1] if len(args) > 1 else kw.get("default", None)
-        if dflt is None:
-            if vk.tag in ("set", "dict", "list"):
-                # Optional[container]: only truthiness / `is None` tests are supported on the result
-                yield SV(OPT(vk), (z3.Not(present), val.tree)), st
+        if dflt is None or (isinstance(dflt, SV) and dflt.kind.tag == "none"):
+            if vk.tag == "any":
+                yield SV(ANY, z3.If(present, val.tree, Val.VNone)), st
                 return
+            # Optional[container]: only truthiness / `is None` tests are supported on the result
             yield SV(OPT(vk), (z3.Not(present), val.tree)), st
             return
         if isinstance(dflt, (list, set, dict, tuple)) and not dflt and vk.tag in ("set", "dict", "list"):
@@ -1127,7 +1162,10 @@ def install(I):
             dflt = args[1]
             s2 = I.store(st, recv.origin, newd)
             if dflt is None:
-                yield SV(OPT(vk), (z3.Not(present), val.tree)), s2
+                if vk.tag == "any":
+                    yield SV(ANY, z3.If(present, val.tree, Val.VNone)), s2
+                else:
+                    yield SV(OPT(vk), (z3.Not(present), val.tree)), s2
             else:
                 yield I.ite(present, val, dflt), s2
             return
